@@ -112,6 +112,31 @@ func c11Direct(c *Ctx) {
 		}
 		tryCells(fmt.Sprintf("cells|raw=%x", s), s, 1)
 	}
+	// A1b: a frame length prefix of 2^31 or more, which no HBase frame can have, fed to the
+	// real receive function: refused as a connection failure. (Where int has 32 bits the
+	// allocation of such a frame panics instead of failing; prefixes between 1 MiB and 2^31
+	// are not generated - their allocation is inherent to the framing.)
+	for _, pfx := range [][]byte{{0x80, 0, 0, 0}, {0x80, 0, 0, 1}, {0xc0, 0, 0, 0}, {0xff, 0xff, 0xff, 0xfe}, {0xff, 0xff, 0xff, 0xff}} {
+		unit := fmt.Sprintf("frame|prefix=%x", pfx)
+		if !own() || (c.Filter != "" && c.Filter != unit) {
+			continue
+		}
+		n++
+		nt++
+		rc := region.NewClient("rs1:1", region.RegionClient, 1, time.Millisecond, "root", 30*time.Second, nil, nil, quietLogger)
+		var err error
+		m := catch(func() { err = region.VReceive(rc, bytes.NewReader(pfx)) })
+		if m != "" {
+			r.Direct(unit, true, "", &explore.Finding{Class: "frame-length-panic", Msg: fmt.Sprintf("input % x\n%s", pfx, firstLines(m, 12))},
+				func() any { return map[string]any{"unit": unit, "bytes": fmt.Sprintf("% x", pfx)} })
+			continue
+		}
+		if err == nil {
+			r.Direct(unit, true, "", &explore.Finding{Class: "impossible-frame-length-accepted", Msg: fmt.Sprintf("input % x", pfx)}, nil)
+			continue
+		}
+		outc["frame-length-refused"]++
+	}
 	// A1c: the cellblock decompressor on its own: every short byte string over a boundary
 	// alphabet, and a valid two-block stream with every byte of its two length headers set to
 	// boundary values (singly and in pairs) and every truncation. The lengths are uint32 on
@@ -1427,7 +1452,7 @@ func init() {
 		ID: "C11", Level: "fault_enumeration",
 		Technique:   "bounded exhaustive malformed-input enumeration: all short byte strings and the full boundary product of KeyValue length fields into the cellblock reader, every region-info value prefix/corruption, and structure-aware mutations / every truncation / byte flips of valid get, mutate, scan and multi response frames delivered through the real reader goroutine under the controlled scheduler",
 		Rule:        "A: all byte strings of length <=2 (thorough <=3), all strings <=6 (8) over {00,01,0e,7f,80,ff}, 10x10x10x8x6 boundary values of kvLen/keyLen/valueLen/rowLen/famLen on exact, short and two-cell buffers (capacity = length), truncations x declared counts, 60+ region-info values. B: for each of 4 response kinds ~45-60 field mutations (call id, exception parts, delimiters, cell_block_meta.length, associated_cell_count, cells_per_result vs flags, multi index / duplicate / result-and-exception / region-result count / nameless exceptions, frame length) singly (thorough: in pairs), every truncation, 5 values at every byte, damaged compressed cellblocks; frames whose counts drive allocations run in a sub-process with a 2 GiB limit. Oracle: no panic in any thread, no caller or reader stranded, later calls served or refused. Non-trivial = every malformed input. Part A also: every hbase:meta row KEY of length <=5 over {t , a 1 00 :} with a valid region-info value, parsed and then used like a looked-up region (put into a cache that knows a region of the table, looked up); every sequence of <=2 (thorough 3) scan-result shapes (0-2 cells, partial flag, row a/b) as a first response through the real scanner, partial results allowed or not (no panic, the scan ends). Tier W: structurally valid answers with odd contents through the public API - increment / append / get / put / check-and-put x {0-2 cells x value lengths 0,1,7,8,9; no result; no processed flag; cells in the protobuf as well as in the cellblock}: the call returns a value or an error. Also: region-info values naming tables of 1..40000 bytes into parser and cache; tier W: the row answering a region lookup with odd contents (5 row keys for the first cell x 2 for the others x {valid, offline, huge table, huge table offline, garbage} region-info x server cell absent / behind / in front).",
-		Assumptions: []string{"allocation of a frame's own declared length (the 4-byte prefix) is inherent to the framing and not judged; prefixes above 1 MiB are not generated", "default thread schedule for part B (schedules are C03's subject)"},
+		Assumptions: []string{"allocation of a frame's own declared length (the 4-byte prefix) is inherent to the framing and not judged; prefixes between 1 MiB and 2^31 are not generated", "default thread schedule for part B (schedules are C03's subject)"},
 		Quick:       120 * time.Second, Thorough: 20 * time.Minute,
 		Units: c11Units, Direct: c11Direct, Arch32: true,
 	})
